@@ -66,6 +66,35 @@ class _CallTimeout(BaseException):
 
 _alarm_fired = [False]
 _depth = [0]
+_INFLIGHT = [None]  # path of the "case being evaluated" record of this shard process
+
+
+def _note_inflight(prop_id, oracle, case):
+    """A shard process that is killed by the code under test (numba/LAPACK fatal error,
+    segmentation fault) cannot report anything: the parent finds the case here and replays it
+    in a fresh process to decide between "the code aborts on this input" and a harness fault."""
+    path = _INFLIGHT[0]
+    if path is None:
+        return
+    try:
+        with open(path, "w") as f:
+            json.dump({"property": prop_id, "oracle": oracle.name, "class": "abort", "message": "", "case": case}, f, default=str)
+    except OSError:
+        pass
+_cpu_deadline = [None]
+
+
+def check_budget():
+    """Cooperative side of the watchdog: called from the Python callbacks the harness hands to
+    PyDRex (velocity gradient, position), i.e. on every right-hand-side evaluation of the ODE
+    solver. Raising from ordinary Python code is safe, whereas a signal handler that raises
+    while compiled code or the Fortran solver is on the stack can crash the interpreter; the
+    signal timers therefore only serve as a backstop at five times the limit (at least 300 s of
+    CPU time, well beyond any JIT compilation)."""
+    d = _cpu_deadline[0]
+    if d is not None and time.process_time() > d:
+        _alarm_fired[0] = True
+        raise _CallTimeout()
 
 
 def _on_alarm(signum, frame):
@@ -80,9 +109,11 @@ def sut(fn, *args, allowed=(), **kwargs):
     """Call the code under test; its exceptions are violations unless `allowed`.
 
     A single call that uses more than SUT_TIMEOUT_S of CPU time (an ODE solver crawling with
-    microscopic steps), or 10x that in wall-clock time (a hang), is abandoned and the case
-    counted as skipped ("timeout"): a time limit is never a correctness signal.  CPU time is
-    the primary limit so that the outcome does not depend on how loaded the machine is.
+    microscopic steps) is abandoned and the case counted as skipped ("timeout"): a time limit
+    is never a correctness signal.  CPU time is the limit so that the outcome does not depend
+    on how loaded the machine is.  The limit is enforced cooperatively from the harness'
+    callbacks (`check_budget`); signal timers (5x CPU, 10x wall clock) are a backstop for
+    calls that never come back to Python.
     """
     import signal
     import threading
@@ -93,8 +124,9 @@ def sut(fn, *args, allowed=(), **kwargs):
         _alarm_fired[0] = False
         old_handler = signal.signal(signal.SIGALRM, _on_alarm)
         old_prof = signal.signal(signal.SIGPROF, _on_alarm)
-        signal.setitimer(signal.ITIMER_PROF, SUT_TIMEOUT_S)
-        signal.setitimer(signal.ITIMER_REAL, 10 * SUT_TIMEOUT_S)
+        _cpu_deadline[0] = time.process_time() + SUT_TIMEOUT_S
+        signal.setitimer(signal.ITIMER_PROF, max(5 * SUT_TIMEOUT_S, 300.0))
+        signal.setitimer(signal.ITIMER_REAL, max(10 * SUT_TIMEOUT_S, 900.0))
     try:
         out = fn(*args, **kwargs)
         if use_alarm and _alarm_fired[0]:
@@ -130,6 +162,7 @@ def sut(fn, *args, allowed=(), **kwargs):
     finally:
         _depth[0] -= 1
         if use_alarm:
+            _cpu_deadline[0] = None
             signal.setitimer(signal.ITIMER_PROF, 0)
             signal.setitimer(signal.ITIMER_REAL, 0)
             signal.signal(signal.SIGALRM, old_handler)
@@ -360,6 +393,7 @@ def run_oracle(prop_id, oracle: Oracle, n_examples, seed_int, active_known, dead
             ):
                 return  # shrink budget used up: let Hypothesis wind down
             shrinking = t_first_fail[0] is not None
+            _note_inflight(prop_id, oracle, case)
             res = evaluate(oracle, case, frozenset(local_known))
             kind = res[0]
             if shrinking:
@@ -570,10 +604,16 @@ def check_known(prop_id, module):
     return active, lines, details
 
 
+def _inflight_path(prop_id, tier, shard):
+    return os.path.join(WORK_DIR, prop_id, f"inflight-{tier}-{shard}.json")
+
+
 def run_shard(prop_id, module, tier, seed, shard, nshards, budget_s, only=None):
     """Run all oracles of a property in this process; returns result dict."""
     t0 = time.time()
     deadline_ts = t0 + budget_s
+    if nshards > 1:
+        _INFLIGHT[0] = _inflight_path(prop_id, tier, shard)
     active, known_lines, known_details = check_known(prop_id, module)
     results = []
     failures = []
@@ -782,8 +822,42 @@ def run_property(prop_id, module, tier, seed, nshards, budget_s, only=None):
             with open(out) as f:
                 parts.append(json.load(f))
             os.unlink(out)
-        if bad or not parts:
+        aborts = []
+        for k, rc, txt in list(bad):
+            # killed by a signal: did the code under test abort the interpreter on a generated
+            # input?  Replay the case that was in flight in a fresh process; only a second death
+            # by signal counts (deterministic, attributable), anything else stays a harness error.
+            inflight = _inflight_path(prop_id, tier, k)
+            if rc is not None and rc < 0 and os.path.exists(inflight):
+                rp = subprocess.run(
+                    [sys.executable, os.path.join(ROOT, "run.py"), prop_id, "--replay", inflight],
+                    stdout=subprocess.PIPE,
+                    stderr=subprocess.STDOUT,
+                    timeout=3600,
+                    env=dict(os.environ, VERIF_REPLAYING="1"),
+                )
+                if rp.returncode < 0:
+                    with open(inflight) as f:
+                        doc = json.load(f)
+                    tail = rp.stdout.decode(errors="replace")
+                    first = next((ln for ln in tail.splitlines() if "Fatal Python error" in ln or "Error" in ln), "")
+                    msg = f"the code under test killed the interpreter (signal {-rp.returncode}) on this input, twice: {first.strip()[:200]}"
+                    aborts.append({"oracle": doc["oracle"], "class": "abort", "case": doc["case"], "message": msg, "residual": None})
+                    bad.remove((k, rc, txt))
+        for k in range(nshards):
+            try:
+                os.unlink(_inflight_path(prop_id, tier, k))
+            except OSError:
+                pass
+        if bad or (not parts and not aborts):
             for k, rc, txt in bad:
                 print(f"HARNESS-ERROR shard {k} rc={rc}\n{txt}", file=sys.stderr)
             return 2
+        if aborts:
+            rc_merge = merge_and_report(prop_id, module, tier, seed, parts, time.time() - t0, nshards) if parts else 0
+            for fl in aborts:
+                path = _write_replay(prop_id, fl, seed, tier)
+                print(f"  {fl['oracle']}[abort]: {fl['message']}")
+                print(f"VIOLATION property={prop_id} replay={path}")
+            return 1
     return merge_and_report(prop_id, module, tier, seed, parts, time.time() - t0, nshards)
